@@ -1,5 +1,6 @@
 """Run symbolic library-level cases on the implementation (Rust harness) and on the extracted
 Coq model, and align the two outputs operation by operation."""
+import zlib
 import os, re, subprocess, concurrent.futures as cf
 from .common import *
 
@@ -10,8 +11,17 @@ class Case:
         self.ops = ops            # symbolic op lines
         self.meta = meta or {}
         self.mode = mode          # "lib" (L1) or "http" (L2)
+    NEEDS_WRAPPER = ("fault", "rowfault", "sqlfault", "lockbegin", "inst", "cfg", "hold", "usedir", "crashmid", "abort",
+                     "loadstate", "savestate", "integrity")
     def text(self):
-        return f"case {self.name}\n" + "\n".join(self.ops) + "\nend\n"
+        ops = self.ops
+        # a third of the library-level cases run with the Server directly on the backend's storage
+        # object (no harness wrapper in between), so that everything the backend's own transaction
+        # type implements is what gets called
+        if self.mode == "lib" and zlib.crc32(self.name.encode()) % 3 == 0 and self.meta.get("raw", True) \
+                and not any(o.split()[0] in self.NEEDS_WRAPPER for o in ops):
+            ops = ["raw"] + list(ops)
+        return f"case {self.name}\n" + "\n".join(ops) + "\nend\n"
 
 
 def _run_shard(args):
